@@ -1,4 +1,232 @@
-import TakVerif.Spec.Tak
+import TakVerif.Proofs.RoadInv
+
+/-!
+# C02 — game end, winner and win reason follow the rules of Tak in every position
+
+Model: `Gen.precompute`, `Gen.grow` (generated from `bitboard/bits.go`), `Tak.flood`, `Tak.floodGroups`,
+`Pos.analyze`, `Pos.hasRoad`, `Pos.gameOver`, `Pos.countFlats`, `Pos.winDetails` (`tak/game.go`).
+Rule book: `Spec.Conn`/`Spec.RoadPath` (inductive chain of adjacent squares), `Spec.outcome`,
+`Spec.abs : Pos → State` (what `At`, the reserves and the ply show).
+
+All theorems are for every size 3..8 and every bit pattern satisfying the stated hypotheses — no sampling.
+Helper lemmas live in `TakVerif/Proofs/{Grow,Adj,Flood,Popcount,Groups,SpecReach,Road,Outcome,RoadInv}.lean`.
+
+Hypotheses: `RoadWF p` (size 3..8, constants = `Precompute(size)`, `White`/`Black` on the board and disjoint,
+groups = `analyze()`); proved for `New` (`new_wf`) and for every result of `FromSquares` (`fromSquares_wf`);
+for results of `Move` it is C01's invariant, evaluated here on every sampled position (op `wfb`).
+The model is of the tree with fix `fixes/C02-reserve-wrap.diff` (reserves tested counter by counter): with the
+original byte sums `whiteStones+whiteCaps != 0` a configuration with stones + capstones = 256 was reported
+finished at the start position.
+-/
 namespace C02
-theorem placeholder : True := trivial
+open Tak Spec Roads
+
+/-! ## 1. `Grow` and the edge masks -/
+
+/-- Bit `i` of `Grow(c, within, seed)` for **arbitrary** constants: `seed` at `i`, or at `i-1` unless `i` is
+in `c.R`, or at `i+1` unless `i` is in `c.L`, or at `i ± c.Size`; all intersected with `within`. -/
+theorem grow_bit (c : Consts) (w s : W) (i : Nat) (hi : i < 64) :
+    (Gen.grow c w s).getLsbD i =
+      (( s.getLsbD i
+        || (decide (1 ≤ i) && s.getLsbD (i - 1) && !c.R.getLsbD i)
+        || (s.getLsbD (i + 1) && !c.L.getLsbD i)
+        || s.getLsbD (i + c.Size)
+        || (decide (c.Size ≤ i) && s.getLsbD (i - c.Size)) ) && w.getLsbD i) :=
+  Roads.grow_bit c w s i hi
+
+/-- The masks of `Precompute(n)` for each n in 3..8, bit by bit (kernel evaluation of the generated
+definition over the 64 positions).  Square (x, y) is bit `x + y*n`.  Go's `R` is the column x = 0 and `L` the
+column x = n-1; `B` is the row y = 0, `T` the row y = n-1; `Mask` is the board.  8×8 uses bit 63. -/
+theorem edge_masks (n : Nat) (hn : 3 ≤ n ∧ n ≤ 8) (i : Fin 64) :
+    (Gen.precompute n).R.getLsbD i = (decide (i.val % n = 0) && decide (i.val < n * n)) ∧
+    (Gen.precompute n).L.getLsbD i = (decide (i.val % n = n - 1) && decide (i.val < n * n)) ∧
+    (Gen.precompute n).B.getLsbD i = decide (i.val < n) ∧
+    (Gen.precompute n).T.getLsbD i = (decide (i.val / n = n - 1) && decide (i.val < n * n)) ∧
+    (Gen.precompute n).Mask.getLsbD i = decide (i.val < n * n) ∧
+    (Gen.precompute n).Size = n :=
+  ⟨R_bit n hn i, L_bit n hn i, B_bit n hn i, T_bit n hn i, Mask_bit n hn i, rfl⟩
+
+/-- `Spec.neighbours` is orthogonal adjacency on the board, in coordinates x = i % n, y = i / n. -/
+theorem neighbours_coords {n j k : Nat} (hj : j < n * n) :
+    k ∈ Spec.neighbours n j ↔ k < n * n ∧
+      ((k / n = j / n ∧ (k % n + 1 = j % n ∨ k % n = j % n + 1)) ∨
+       (k % n = j % n ∧ (k / n + 1 = j / n ∨ k / n = j / n + 1))) :=
+  mem_neighbours_coords hj
+
+/-- **One round of growth** on a board of size 3..8, for `within`, `seed` inside the board: square `i` is in
+`Grow` iff it is in `within` and it, or one of its orthogonal neighbours *on the board*, is in `seed`
+(no wrap-around between rows, nothing enters from outside the board, bit 63 included). -/
+theorem grow_spec (n : Nat) (hn : 3 ≤ n ∧ n ≤ 8) (w s : W)
+    (hw : Sub w (Gen.precompute n).Mask) (hs : Sub s (Gen.precompute n).Mask) (i : Nat) :
+    (Gen.grow (Gen.precompute n) w s).getLsbD i =
+      (w.getLsbD i && (s.getLsbD i || (Spec.neighbours n i).any (fun j => s.getLsbD j))) :=
+  Roads.grow_spec n hn w s hw hs i
+
+example : Sub 0x1ff#64 (Gen.precompute 3).Mask ∧ Sub 0x010#64 (Gen.precompute 3).Mask :=
+  ⟨(subB_iff _ _).mp (by decide), (subB_iff _ _).mp (by decide)⟩
+
+/-! ## 2. `Flood` -/
+
+/-- `Flood` terminates within the model's 66 rounds for **any** constants when `seed ⊆ within`
+(a round that does not stop adds a bit; there are 64 bits). -/
+theorem flood_isSome (c : Consts) (within seed : W) (h : Sub seed within) :
+    (flood c within seed).isSome = true :=
+  Roads.flood_isSome c within seed h
+
+/-- `Flood` returns the least fixpoint: exactly the squares joined to a seed square by a chain of
+adjacent squares inside `within`. -/
+theorem flood_reach (n : Nat) (hn : 3 ≤ n ∧ n ≤ 8) (within seed : W)
+    (hw : Sub within (Gen.precompute n).Mask) (hs : Sub seed within) :
+    ∃ r, flood (Gen.precompute n) within seed = some r ∧
+      ∀ k, r.getLsbD k = true ↔
+        ∃ i, seed.getLsbD i = true ∧ Spec.Conn n (fun j => within.getLsbD j = true) i k :=
+  Roads.flood_reach n hn within seed hw hs
+
+/-! ## 3. `FloodGroups` -/
+
+/-- `FloodGroups` never runs out of fuel and returns a duplicate-free list consisting of exactly the
+connected components of `bits` with at least two squares (`IsComp n bits g`: `g` is the set of squares
+connected to some square of `bits`; `Big g`: two distinct squares). -/
+theorem groups_spec (n : Nat) (hn : 3 ≤ n ∧ n ≤ 8) (bits : W) (hb : Sub bits (Gen.precompute n).Mask) :
+    ∃ gs, floodGroups (Gen.precompute n) bits = some gs ∧ gs.Nodup ∧
+      ∀ g, g ∈ gs ↔ IsComp n bits g ∧ Big g :=
+  Roads.groups_spec n hn bits hb
+
+/-- `Big g` in `groups_spec` is "at least two squares" as a popcount -/
+theorem big_iff_cnt (g : W) : Big g ↔ 2 ≤ cnt g := Roads.big_iff_cnt g
+
+/-- the model's `popcount` (Kernighan loop, fuel 64) is the number of set bits -/
+theorem popcount_eq_cnt (x : W) : Tak.popcount x = cnt x := Roads.popcount_eq_cnt x
+
+/-- different components share no square, so `Nodup` above means "each component once" -/
+theorem components_disjoint {n : Nat} {all g h : W} (hg : IsComp n all g) (hh : IsComp n all h) {j : Nat}
+    (hgj : g.getLsbD j = true) (hhj : h.getLsbD j = true) : g = h :=
+  hg.eq_of_common hh hgj hhj
+
+/-- `FloodGroups` and therefore `analyze()` stay within the model's fuel for **every** position and
+**any** constants (each round clears the lowest set bit, each `Flood` has `seed ⊆ within`): the
+model's `hang "analyze"` outcome is unreachable. -/
+theorem floodGroups_isSome (c : Consts) (bits : W) : (floodGroups c bits).isSome = true :=
+  Roads.floodGroups_isSome c bits
+
+theorem analyze_ne_none (p : Pos) : p.analyze ≠ none :=
+  Roads.analyze_ne_none p
+
+/-! ## 4. roads -/
+
+/-- The executable rule-book road search decides the inductive notion of a road, for every state. -/
+theorem spec_hasRoad_iff (s : State) (c : Color) : Spec.hasRoad s c = true ↔ Spec.RoadPath s c :=
+  Roads.spec_hasRoad_iff s c
+
+/-- **Road detection.**  On a well-formed board, for White and for Black: some group recorded by `analyze`
+touches both the top and bottom rows or both the left and right columns (the test in `hasRoad()`) iff
+the position seen through `At` has a chain of adjacent squares topped by that colour's flats/capstones
+joining two opposite edges.  (Single-square groups are dropped by `FloodGroups`; they cannot span a board
+of size ≥ 3.) -/
+theorem hasRoad_iff (p : Pos) (wf : RoadWF p) :
+    (p.wgroups.any (isRoadGroup p.c) = true ↔ Spec.RoadPath (Spec.abs p) .white) ∧
+    (p.bgroups.any (isRoadGroup p.c) = true ↔ Spec.RoadPath (Spec.abs p) .black) :=
+  ⟨groups_any_iff_roadPath p wf .white (by decide), groups_any_iff_roadPath p wf .black (by decide)⟩
+
+/-! ## 5. the end of the game -/
+
+/-- The rule-book outcome, read with roads as propositions: this is the property's text. -/
+theorem outcome_rules (s : State) :
+    ((outcome s).over = true ↔
+        RoadPath s .white ∨ RoadPath s .black ∨ (∀ sq ∈ s.squares, sq ≠ []) ∨
+        s.whiteStones + s.whiteCaps = 0 ∨ s.blackStones + s.blackCaps = 0) ∧
+    ((outcome s).road = true ↔ RoadPath s .white ∨ RoadPath s .black) ∧
+    (RoadPath s .white → RoadPath s .black → (outcome s).winner = s.toMove.flip) ∧
+    (RoadPath s .white → ¬ RoadPath s .black → (outcome s).winner = .white) ∧
+    (¬ RoadPath s .white → RoadPath s .black → (outcome s).winner = .black) ∧
+    (¬ RoadPath s .white → ¬ RoadPath s .black → (outcome s).over = true →
+        (outcome s).winner = flatsWinnerOf s) ∧
+    ((outcome s).over = false → (outcome s).winner = .none) ∧
+    (outcome s).whiteFlats = flatCount s .white ∧ (outcome s).blackFlats = flatCount s .black :=
+  Roads.outcome_rules s
+
+/-- **`WinDetails()` = the rule book** on every well-formed board:
+over / winner (road owner; the previous mover on a double road; flats with the tie-break flag) /
+reason / both flat counts (popcounts = counts over the squares). -/
+theorem winDetails_refines (p : Pos) (wf : RoadWF p) :
+    toOutcome p.winDetails = Spec.outcome (Spec.abs p) :=
+  Roads.winDetails_refines p wf
+
+/-- **`GameOver()` = the rule book.** -/
+theorem gameOver_refines (p : Pos) (wf : RoadWF p) :
+    p.gameOver = ((Spec.outcome (Spec.abs p)).over, (Spec.outcome (Spec.abs p)).winner) :=
+  Roads.gameOver_refines p wf
+
+/-- **`ptn.ResultFromGame`**: the result string is the rule book's ("R-0", "0-F", "1/2-1/2", …), and the
+call panics exactly when the rule book says the game is still running. -/
+theorem result_refines (p : Pos) (wf : RoadWF p) :
+    p.resultFromGame = match Spec.result (Spec.abs p) with
+      | some r => .ok r
+      | none => .error (.panic "ResultFromGame: game is not over") :=
+  Roads.result_refines p wf
+
+/-! ## 6. the hypotheses are satisfiable and checkable -/
+
+/-- the invariant as an executable test (run on every sampled position by the `wfb` op) -/
+theorem wfBoardB_iff (p : Pos) : p.wfBoardB = true ↔ WFBoard p :=
+  Roads.wfBoardB_iff p
+
+/-- start positions are well-formed -/
+theorem new_wf (cfg : Cfg) (p : Pos) (h : Pos.new cfg = .ok p) : WFBoard p :=
+  Roads.new_wf cfg p h
+
+/-- **every position `FromSquares` returns** (any input it accepts, any ply, any configuration of size 3..8
+— other sizes make `New` panic) satisfies the hypothesis `RoadWF` of the theorems above -/
+theorem fromSquares_wf (basis : Array W) (cfg : Cfg) (board : List (List Nat)) (move : Int) (p : Pos)
+    (h : Pos.fromSquares basis cfg board move = .ok p) : RoadWF p :=
+  Roads.fromSquares_roadWF basis cfg board move p h
+
+/-- … so `WinDetails()` on every constructed position is the rule book's verdict -/
+theorem constructed_gameOver (basis : Array W) (cfg : Cfg) (board : List (List Nat)) (move : Int) (p : Pos)
+    (h : Pos.fromSquares basis cfg board move = .ok p) :
+    toOutcome p.winDetails = Spec.outcome (Spec.abs p) :=
+  Roads.winDetails_refines p (Roads.fromSquares_roadWF basis cfg board move p h)
+
+/-- the full invariant implies the part the theorems use -/
+theorem wfBoard_roadWF (p : Pos) (wf : WFBoard p) : RoadWF p := wf.toRoadWF
+
+/-- whatever `analyze` returns has its `analyzed` field true (so `Move`/`FromSquares` results do) -/
+theorem analyze_idem (p q : Pos) (h : p.analyze = some q) : q.analyze = some q :=
+  Roads.analyze_idem p q h
+
+/-! ### concrete instances of the hypotheses (non-vacuity), evaluated by the kernel -/
+
+/-- a board given by its four bitboards, analysed -/
+def exBoard (size : Nat) (white black standing caps : W) (move : Int) (ws wc bs bc : Nat) : Pos :=
+  let p : Pos :=
+    { cfg := ⟨size, 30, 1, false⟩, c := Gen.precompute size
+      whiteStones := BitVec.ofNat 8 ws, whiteCaps := BitVec.ofNat 8 wc
+      blackStones := BitVec.ofNat 8 bs, blackCaps := BitVec.ofNat 8 bc
+      move := move, white := white, black := black, standing := standing, caps := caps
+      height := #[], stacks := #[], wgroups := [], bgroups := [], hash := 0#64 }
+  p.analyze.getD p
+
+/-- 5×5: a bent white road a1-a2-b2-c2-c3-d3-e3 with a capstone on c2, a black wall on b3 -/
+def ex5 : Pos := exBoard 5 0x70e1#64 0x800#64 0x800#64 0x80#64 14 10 0 10 1
+
+example : WFBoard ex5 := (wfBoardB_iff _).mp (by decide)
+example : ex5.winDetails = ⟨true, .road, .white, 6, 0⟩ := by decide
+
+/-- 8×8 with a white road up column h (bits 7, 15, …, 63) and a black road up column a: a double road -/
+def ex8 : Pos := exBoard 8 0x8080808080808080#64 0x0101010101010101#64 0#64 0#64 31 10 1 10 1
+
+example : WFBoard ex8 := (wfBoardB_iff _).mp (by decide)
+-- Black to move (ply 31), so White just moved and wins the double road
+example : ex8.winDetails = ⟨true, .road, .white, 8, 8⟩ := by decide
+
+/-- 3×3, no road: White has no flat stones left but still a capstone in reserve → not over;
+with the capstone gone too → over on flats (2 : 1) -/
+def ex3 (wc : Nat) : Pos := exBoard 3 0b000000011#64 0b100000000#64 0#64 0#64 20 0 wc 5 0
+
+example : WFBoard (ex3 1) := (wfBoardB_iff _).mp (by decide)
+example : (ex3 1).winDetails = ⟨false, .flats, .none, 2, 1⟩ := by decide
+example : (ex3 0).winDetails = ⟨true, .flats, .white, 2, 1⟩ := by decide
+example : (ex3 0).resultFromGame.toOption = some "F-0" ∧ ex8.resultFromGame.toOption = some "R-0" ∧
+    (ex3 1).resultFromGame.toOption = none := by decide
+
 end C02
